@@ -86,6 +86,19 @@ CLAIMED = {
             "DESIGN.md §7 C06"),
 }
 
+# extraction ties added after the first build: appended to technique / level text / trusted base
+EXTRA = {
+    "C01": ("score_beats_threshold, the naive matcher's loop body, the decision loop and fp/fn/rq/pq", "beats_metric_ok, naive_loop_ok, decision_loop_ok, fp_ok, fn_ok, rq_ok, products_ok"),
+    "C02": ("the decision loop of evaluate_matched_instance, fp/fn/prec/rec/rq/pq* formulas and the sq* readers, score_beats_threshold", "decision_loop_ok, fp_ok, fn_ok, prec_ok, rec_ok, rq_ok, products_ok, readers_ok, beats_metric_ok"),
+    "C03": ("score_beats_threshold (both classes) and the naive matcher's loop body", "beats_metric_ok, beats_impl_ok, naive_loop_ok; plus uniqueness of the greedy matching on tie-free input (C03Unique.unique)"),
+    "C08": ("the zero-TP scenario if/elif chain", "scenario_chain_ok"),
+    "C13": ("the scenario chain and the edge branch of _calc_global_bin_metric (guard, count arguments)", "scenario_chain_ok, global_bin_call_ok"),
+    "C14": ("the merge matcher's loop body incl. the improvement test and score bookkeeping, score_beats_threshold", "merge_loop_ok, beats_metric_ok"),
+    "C16": ("the lock/file skeleton of evaluate, _save_one_subject and make_statistic and the two module-level locks", "evaluate_fresh_ok, evaluate_claimed_ok, stat_ok, locks_ok (event sequences equal those of Agg.step)"),
+    "C17": ("the file part of the aggregator constructor in ten file states and the claimed-subject path of evaluate", "ctor_ok, evaluate_claimed_ok (event sequences equal those of Agg.ctorStep / Agg.step)"),
+    "C10": (None, "end-to-end theorem pipeline_counts_invariant for instance input, threshold matching on IoU/Dice and the metrics IoU/Dice/RVD"),
+}
+
 NA = {}
 PENDING_REASON = "machinery for this property is not yet built in this round (model exists or is planned per DESIGN.md §12); it is not claimed until its theorems and correspondence run"
 
@@ -96,6 +109,14 @@ def main():
         pid = p["id"]
         if pid in CLAIMED:
             tech, text, note, ref = CLAIMED[pid]
+            if pid in EXTRA:
+                what, thms = EXTRA[pid]
+                if what:
+                    tech += f" + extraction (Python ast -> deep-embedded Lean terms regenerated from /repo on every run: {what}; semantic obligations proved by the kernel: {thms})"
+                    text += f" In addition {what} are read from the current source on every run and proved (over all abstract situations / all counts) to behave as the model functions the theorems are about."
+                    note += " The extractors (harness/extract/*.py) are trusted to translate the matched syntax faithfully; anything outside their subset becomes `other` and fails the obligation."
+                else:
+                    tech += f" + {thms}"
             checks.append({
                 "property_id": pid,
                 "quick_cmd": f"bin/check {pid} quick",
@@ -123,7 +144,7 @@ def main():
             "name": "lean4-proof+correspondence",
             "path": "lean/ (Lean 4 model, theorems, driver) + harness/ (Python correspondence, oracles, search) + bin/check",
             "serves_properties": sorted(CLAIMED),
-            "kind_free_text": "machine-checked proof in Lean 4 about a hand-written executable model; model tied to /repo by a correspondence check that runs model and implementation on the same inputs; failing-input search on the implementation when a tie breaks",
+            "kind_free_text": "machine-checked proof in Lean 4 about a hand-written executable model; decision expressions, loop bodies, formulas, the aggregator lock/file skeleton and the configuration class descriptors are regenerated from /repo by ast extractors and proved equal in behaviour to the model; model tied to /repo by a correspondence check that runs model and implementation on the same inputs; failing-input search on the implementation when a tie breaks",
         }],
         "checks": checks,
         "not_applicable": na,
